@@ -205,7 +205,7 @@ func Main(cfg *Config) {
 	if cfg.VM {
 		header, caseType = VMHeader, "vcase"
 	}
-	w, err := lib.NewWriter(a.Out, cfg.Prop, a.Tier, a.Seed, header, caseType, 30)
+	w, err := lib.NewWriter(a.Out, cfg.Prop, a.Tier, a.Seed, header, caseType, 20)
 	if err != nil {
 		panic(err)
 	}
